@@ -14,10 +14,7 @@ Context {V : Type} (o : ops V).
 
 Record rcell := { buf : list V; pos : nat; non_null : Z; n_seen : Z; acc : V }.
 
-Definition rows_of_kernel (gk : list Z) (vals : list V) (mask : option (list bool)) :=
-  map (fun i => (get (-1) gk i, (get (null o) vals i,
-         match mask with None => true | Some m => get false m i end)))
-      (seq 0 (length gk)).
+Definition rows_of_kernel (gk : list Z) (vals : list V) (mask : option (list bool)) := mk_rows gk vals mask.
 
 (* ---- sum / mean ---- *)
 Definition sum_step (window : nat) (min_periods : Z) (want_mean : bool)
